@@ -285,6 +285,11 @@ def run_history(ctx, ops, mats, fresh, seq, label, ws=None):
 
 def run_shard(ctx):
     ws = real.Workspace()
+    if ctx.shard % 4 == 1:
+        # "depends only on ... the input file": its content, not its path, size or timestamps
+        from jv import strata
+        strata.same_stat_probe(ctx, ws, 3, binary=False)
+        strata.same_stat_probe(ctx, ws, 3, binary=True)
     ops = pool()
     nfixed = len(ops)
     ops += random_ops(ctx.rng, 10 if ctx.tier == "quick" else 24)
@@ -314,6 +319,9 @@ def run_shard(ctx):
 
 
 def replay(ctx, case):
+    if case.get("same_stat"):
+        from jv import strata
+        return strata.same_stat_probe(ctx, real.Workspace(), 8, binary=bool(case.get("binary")))
     ws = real.Workspace()
     ops = pool() + [o for o in case.get("random_ops", [])]
     names = [o["name"] for o in ops]
